@@ -933,7 +933,8 @@ class NetConnections:
         with open_text(file) as f:
             f.readline()  # skip the first line
             for line in f:
-                tokens = line.split()
+                # the path is the rest of the line (it can contain spaces)
+                tokens = line.split(None, 7)
                 try:
                     _, _, _, _, type_, _, inode = tokens[0:7]
                 except ValueError:
@@ -954,7 +955,7 @@ class NetConnections:
                     if filter_pid is not None and filter_pid != pid:
                         continue
                     else:
-                        path = tokens[-1] if len(tokens) == 8 else ''
+                        path = tokens[7].rstrip('\n') if len(tokens) == 8 else ''
                         type_ = _common.socktype_to_enum(int(type_))
                         # XXX: determining the remote endpoint of a
                         # UNIX socket on Linux is not possible, see:
